@@ -161,7 +161,15 @@ func convert(pt project) (c converted, accepted bool, hasRoot bool, clause, what
 		if !stdjson.Valid(b) {
 			return "", fmt.Sprintf("OpenAPI conversion of %s is not JSON: %s", name, mon.Trunc(string(b), 200))
 		}
-		return string(b), ""
+		first := string(b)
+		// the same schema object is converted once more: an accepted schema stays convertible, to the same text
+		if p := mon.Guard(func() { b, cerr = openapi.NewSchemaObject(sc).MarshalJSON() }); p != nil {
+			return "", fmt.Sprintf("second OpenAPI conversion of %s panicked (the first gave %s): %s", name, mon.Trunc(first, 200), p.Value)
+		}
+		if cerr != nil || string(b) != first {
+			return "", fmt.Sprintf("second OpenAPI conversion of %s differs from the first: %s vs %s (err %v)", name, mon.Trunc(string(b), 200), mon.Trunc(first, 200), cerr)
+		}
+		return first, ""
 	}
 	var w string
 	if c.Root, w = conv("the root", s); w != "" {
@@ -567,6 +575,81 @@ func c08Run(r *mon.Run) {
 						r.Nontrivial(projectKey(toTexts(p, gen.DefaultLayout)))
 					}
 					r.Count("key_shortcut_grid_projects", 1)
+				}
+			}
+		}
+	}
+	// one type named many times in sibling positions, directly and through one or two alias types (a type whose
+	// whole schema is another type): as members of one object, as items of one array, one level down, and as
+	// or alternatives; the example must carry every required member
+	{
+		targets := []func() *gen.Node{
+			func() *gen.Node { return gen.Obj(gen.Int("1").K("id"), gen.Str("n").K("name")) },
+			func() *gen.Node { return gen.Int("7").R("min", "0") },
+			func() *gen.Node { return gen.Arr(gen.Str("x")).R("minItems", "1") },
+			func() *gen.Node { return gen.Obj(gen.Obj(gen.Bool(true).K("deep")).K("in")) },
+		}
+		ai := 0
+		arng := r.Rand("c08-alias")
+		for ti := range targets {
+			for aliases := 0; aliases <= 2; aliases++ {
+				for fan := 1; fan <= 6; fan++ {
+					for place := 0; place < 5; place++ {
+						if !r.Mine(ai) {
+							ai++
+							continue
+						}
+						ai++
+						types := []gen.NamedNode{{Name: "@id", Node: targets[ti]()}}
+						name := "@id"
+						for a := 0; a < aliases; a++ {
+							next := fmt.Sprintf("@ref%d", a)
+							types = append(types, gen.NamedNode{Name: next, Node: gen.Ref(name)})
+							name = next
+						}
+						var root *gen.Node
+						switch place {
+						case 0: // sibling members
+							var ms []*gen.Node
+							for i := 0; i < fan; i++ {
+								ms = append(ms, gen.Ref(name).K(fmt.Sprintf("m%d", i)))
+							}
+							root = gen.Obj(ms...)
+						case 1: // items of one array
+							var it []*gen.Node
+							for i := 0; i < fan; i++ {
+								it = append(it, gen.Ref(name))
+							}
+							root = gen.Arr(it...)
+						case 2: // one level down, one member each
+							var ms []*gen.Node
+							for i := 0; i < fan; i++ {
+								ms = append(ms, gen.Obj(gen.Ref(name).K("v")).K(fmt.Sprintf("m%d", i)))
+							}
+							root = gen.Obj(ms...)
+						case 3: // members typed by rule
+							var ms []*gen.Node
+							for i := 0; i < fan; i++ {
+								m := targets[ti]()
+								m.Rules = nil
+								ms = append(ms, m.R("type", gen.Q(name)).K(fmt.Sprintf("m%d", i)))
+							}
+							root = gen.Obj(ms...)
+						default: // members of a type that is itself named several times
+							var ms []*gen.Node
+							for i := 0; i < fan; i++ {
+								ms = append(ms, gen.Ref(name).K(fmt.Sprintf("m%d", i)))
+							}
+							types = append(types, gen.NamedNode{Name: "@holder", Node: gen.Obj(ms...)})
+							root = gen.Obj(gen.Ref("@holder").K("a"), gen.Ref("@holder").K("b"), gen.Ref(name).K("c"))
+						}
+						p := &gen.Project{Root: root, Types: types}
+						if c08Project(r, vs, arng, p, false) {
+							r.Nontrivial(projectKey(toTexts(p, gen.DefaultLayout)))
+							r.Count("alias_fan_out_projects_accepted", 1)
+						}
+						r.Count("alias_fan_out_projects", 1)
+					}
 				}
 			}
 		}
